@@ -7,7 +7,7 @@ from collections import Counter, defaultdict
 from copy import deepcopy
 from functools import partial
 from itertools import chain
-from typing import Callable, Sequence
+from typing import Callable, Optional, Sequence
 
 from clingo.ast import AST, ASTType, Function, Sign, SymbolicAtom, Variable
 
@@ -189,9 +189,14 @@ class UnusedTranslator:
             self.symbol = symbol.update(arguments=[transform_ast(arg, "Variable", replace) for arg in symbol.arguments])
             # self.symbol = deepcopy(symbol)
 
-        def convert(self, arguments: list[AST]) -> AST:
+        def convert(self, arguments: list[AST]) -> Optional[AST]:
             """places the new arguments inside the symbol (and returns it)
-            given by order of self.arguments"""
+            given by order of self.arguments
+            returns None if a repeated head variable a(X,X) is used with different arguments a(Y,Z)"""
+            passed: dict[AST, AST] = {}
+            for head_arg, new_arg in zip(self.arguments, arguments):
+                if passed.setdefault(head_arg, new_arg) != new_arg:
+                    return None
 
             def replace(input_: AST, old: AST, new: AST) -> AST:
                 if input_ == old:
@@ -251,19 +256,24 @@ class UnusedTranslator:
             break  # one copy at a time (chains of copies), execute iterates until nothing changes
 
         used: set[int] = set()
+        keep: set[int] = set()
 
         def convert(atom: AST) -> AST:
             if atom.symbol.ast_type != ASTType.Function:
                 return atom
             bpred = Predicate(atom.symbol.name, len(atom.symbol.arguments))
             if bpred in mapping:
+                new_atom = mapping[bpred].convert(atom.symbol.arguments)
+                if new_atom is None:
+                    keep.add(mapping[bpred].rule_id)
+                    return atom
                 used.add(mapping[bpred].rule_id)
-                return mapping[bpred].convert(atom.symbol.arguments)
+                return new_atom
             return atom
 
         for rule in prg:
             ret.append(transform_ast(rule, "SymbolicAtom", convert))
-        return [x for i, x in enumerate(ret) if i not in used]
+        return [prg[i] if i in keep else x for i, x in enumerate(ret) if i not in used or i in keep]
 
     def execute(self, prg: list[AST]) -> list[AST]:
         """
